@@ -797,6 +797,18 @@ class Flow:
                 if rest[0] < len(ops):
                     return self._q_operand(body, ops[rest[0]], rest[1:], mode)
                 return {Src(("unknown", "field out of range"))}
+            if ak == "adt" and rest and rest[0] == "$item" and mode.startswith("prov"):
+                # a crate-local struct with a hand-written `Stream` impl: its items are what poll_next returns, with the
+                # fields of `self` standing for the operands of THIS construction
+                pn = self.local_stream_impl(rv.get("def"))
+                if pn is not None:
+                    out = set()
+                    for x in self._q(pn, 0, tuple(rest[1:]), "prov@" + pn.id):
+                        if x.kind == "param" and x[1] == pn.id and x[2] == 1 and x[3] and isinstance(x[3][0], int) and x[3][0] < len(ops):
+                            out |= self._q_operand(body, ops[x[3][0]], tuple(x[3][1:]), mode)
+                        else:
+                            out.add(x)
+                    return out
             out = {Src(("agg", body.id, bb, si, rv.get("def") or ak))}
             if mode == "taint" or rest:
                 for o in ops:
@@ -868,7 +880,8 @@ class Flow:
             target = path
         if target is not None:
             cb = self.fb.bodies[target]
-            if mode == "prov" and cb.kind == "fn" and self.context_sensitive_calls and target not in self.merge_call_targets:
+            if (mode == "prov" or mode.startswith("prov@")) and cb.kind == "fn" and self.context_sensitive_calls and \
+                    target not in self.merge_call_targets and mode != "prov@" + target:
                 # instantiate the callee's summary at THIS call site: what its result derives from, with the callee's own
                 # parameters replaced by the arguments given here (a small helper called with the ready-sender at one site
                 # and the done-sender at another must not merge the two)
@@ -930,6 +943,18 @@ class Flow:
             for a in args:
                 out |= self._q_operand(body, a, (), mode)
         return out
+
+    def local_stream_impl(self, adt):
+        """body of `<adt as Stream>::poll_next` when the crate implements Stream for its own struct `adt`"""
+        cache = self.__dict__.setdefault("_stream_impls", {})
+        if adt not in cache:
+            res = None
+            for f in self.fb.fns.values():
+                if f.get("name") == "poll_next" and (f.get("impl_trait") or "").endswith("Stream") and \
+                        (f.get("impl_self") or "").split("<")[0].lstrip("&").strip() == adt and f["id"] in self.fb.bodies:
+                    res = self.fb.bodies[f["id"]]
+            cache[adt] = res
+        return cache[adt]
 
     def instantiate_summary(self, body, t, target, summ, mode="prov"):
         """value sources computed inside `target` in boundary mode (`prov@target`), re-expressed at the call `t` in `body`:
@@ -1056,7 +1081,10 @@ class Flow:
         if not sites and path and isinstance(path[0], int):
             # a method nobody in the crate calls directly (a trait method such as Iterator::next driven by the consumer) on a
             # crate-private struct: a field of `self` holds whatever any construction of that struct puts into it
-            ty = body.locals[local]["s"].lstrip("&").replace("mut ", "").strip().split("<")[0]
+            ty_s = body.locals[local]["s"]
+            if ty_s.startswith("std::pin::Pin<"):
+                ty_s = ty_s[len("std::pin::Pin<"):]        # `self: Pin<&mut Self>` of a hand-written Stream / Future
+            ty = ty_s.lstrip("&").replace("mut ", "").strip().split("<")[0]
             adt = self.fb.adts.get(ty)
             if adt is not None and not adt.get("public") and adt.get("kind") == "Struct":
                 found = False
